@@ -20,7 +20,7 @@ def build(p: dict[str, Any]) -> dict[str, Any]:
     pvars (bool), lonlat (bool), enc ('f4'|'f8'), continuous (freq steps | 0), speed"""
     dt, nsteps, rev = p["dt"], p["nsteps"], p.get("reversed", False)
     sgn = -1 if rev else 1
-    start = C.T0
+    start = str(tadd(C.T0, p.get("start_offset", 0)))  # start times that are not whole multiples of the output period counted from 1970 too
     stop = str(tadd(start, sgn * nsteps * dt + sgn * p.get("extra_stop", 0)))
     lo, hi = sorted([start, stop])
     imax, jmax = 16, 12
@@ -46,6 +46,10 @@ def build(p: dict[str, Any]) -> dict[str, Any]:
     if p.get("pvars", True):
         st_p = dict(wgt="float", release_time="time", hatch="time")
         out_p = dict(wgt="f8", release_time="f8", hatch="f8")
+        if p.get("int_pvar"):  # an integer-typed particle variable (as farmid in examples/lakselus)
+            del st_i["rid"], out_i["rid"]
+            st_p["rid"] = "int"
+            out_p["rid"] = "i4"
     else:
         st_i["wgt"] = "float"
         out_i["wgt"] = enc
@@ -64,12 +68,13 @@ def build(p: dict[str, Any]) -> dict[str, Any]:
         out_i["temp"] = "f8"
     # kills keyed by model time (a warm-started continuation counts its steps anew)
     kills = {str(tadd(start, sgn * int(k) * dt)): v for k, v in p.get("kills", {}).items()}
+    deact = {str(tadd(start, sgn * int(k) * dt)): v for k, v in (p.get("deactivate") or {}).items()}  # switched off: alive, not moved, still reported
     rel = dict(columns=cols, rows=rows, header=True)
     if p.get("continuous"):
         rel.update(continuous=True, freq=p["continuous"] * dt)
     run = dict(start=start, stop=stop, dt=dt, reversed=rev, reference=p.get("reference"), advection="EF", release=rel,
                state=dict(instance_variables=st_i, particle_variables=st_p, default_values=defaults),
-               ibm=dict(module=C.REC_IBM, kill_time=kills, age=True, log=False),
+               ibm=dict(module=C.REC_IBM, kill_time=kills, deactivate_time=deact, age=True, log=False),
                output=dict(period=p["period"] * dt, numrec=p.get("numrec", 0), layout=p.get("layout", "sparse"), instance=out_i, particle=out_p))
     if p.get("scalar"):
         run["extra_forcing"] = ["temp"]
